@@ -1712,6 +1712,23 @@ static int run_case(uint64_t cs, int nframes, const char *modname)
 		return -1;
 	}
 	dump_module(ctx);
+	{
+		/* "the sequence index is valid": every order is labelled with a kept sequence or 0xff; xmp_set_position adopts the
+		 * label as p->sequence and indexes p->scan[] / m->seq_data[] with it, so a stale label is reported here and the case
+		 * ends before the library reads past those tables */
+		int k, bad = -1;
+		for (k = 0; k < ctx->m.mod.len && k < XMP_MAX_MOD_LENGTH; k++)
+			if (ctx->p.sequence_control[k] != 0xff && ctx->p.sequence_control[k] >= ctx->m.num_sequences)
+				bad = k;
+		if (bad >= 0) {
+			printf("O sequence:control_table order %d is labelled with sequence %d but the module has %d sequence(s) (xxo[%d] = %d)\nZ\n",
+			       bad, ctx->p.sequence_control[bad], ctx->m.num_sequences, bad, ctx->m.mod.xxo[bad]);
+			xmp_end_player(c);
+			xmp_release_module(c);
+			xmp_free_context(c);
+			return 1;
+		}
+	}
 	if (ctx->m.mod.len > 0)
 		printf("D wf\nE w ? %d\n", c_ordwf(ctx));
 	else
